@@ -6,6 +6,7 @@ import (
 	"sort"
 	"strconv"
 	"strings"
+	"unicode"
 )
 
 // An executable reading of a lexer grammar (.g4): every rule body becomes a small regular-expression tree, and
@@ -54,9 +55,10 @@ type LexRule struct {
 
 // LexSpec is the executable lexer grammar.
 type LexSpec struct {
-	Rules  []*LexRule
-	byName map[string]*LexRule
-	Modes  []string
+	CaseInsensitive bool // options { caseInsensitive = true; }
+	Rules           []*LexRule
+	byName          map[string]*LexRule
+	Modes           []string
 }
 
 // ---- reading the .g4
@@ -461,7 +463,15 @@ func ReadLexSpec(path string) (*LexSpec, error) {
 			if p.peek().kind != "block" {
 				return nil, fmt.Errorf("%s without a block", t.text)
 			}
-			p.next()
+			blk := p.next().text
+			if t.text == "options" {
+				for _, kv := range strings.Split(blk, ";") {
+					k, v, ok := strings.Cut(kv, "=")
+					if ok && strings.TrimSpace(k) == "caseInsensitive" {
+						s.CaseInsensitive = strings.TrimSpace(v) == "true"
+					}
+				}
+			}
 			continue
 		case "mode":
 			mode = p.next().text
@@ -575,6 +585,10 @@ func inSet(set []rrange, c rune) bool {
 	return false
 }
 
+func foldEq(a, b rune) bool {
+	return unicode.ToLower(a) == unicode.ToLower(b) || unicode.ToUpper(a) == unicode.ToUpper(b)
+}
+
 func uniq(xs []int) []int {
 	if len(xs) < 2 {
 		return xs
@@ -596,7 +610,7 @@ func (m *LexRun) ends(n *lnode, pos int) []int {
 			return nil
 		}
 		for i, c := range n.lit {
-			if m.in[pos+i] != c {
+			if m.in[pos+i] != c && !(m.s.CaseInsensitive && foldEq(m.in[pos+i], c)) {
 				return nil
 			}
 		}
@@ -605,7 +619,11 @@ func (m *LexRun) ends(n *lnode, pos int) []int {
 		if pos >= len(m.in) {
 			return nil
 		}
-		if inSet(n.set, m.in[pos]) != n.neg {
+		hit := inSet(n.set, m.in[pos])
+		if !hit && m.s.CaseInsensitive {
+			hit = inSet(n.set, unicode.ToLower(m.in[pos])) || inSet(n.set, unicode.ToUpper(m.in[pos]))
+		}
+		if hit != n.neg {
 			return []int{pos + 1}
 		}
 		return nil
@@ -715,6 +733,7 @@ func (s *LexSpec) Alphabet() []rune {
 	walk = func(n *lnode) {
 		for _, c := range n.lit {
 			seen[c] = true
+			seen[unicode.ToUpper(c)] = true
 		}
 		for _, r := range n.set {
 			for _, c := range []rune{r.lo - 1, r.lo, r.lo + 1, r.hi - 1, r.hi, r.hi + 1} {
